@@ -60,8 +60,10 @@ def gen_op(r, n):
     v = VALS[r() % len(VALS)]
     i = r() % (n + 3)
     k = r() % 100
-    if k < 14:
+    if k < 11:
         return "a[%d] = %s" % (i, v)
+    if k < 14:
+        return "a[%d]" % (r() % (n + 5))        # keyed read through the VM (dense fast path; past the end the prototype chain decides)
     if k < 20:
         return "delete a[%d]" % i
     if k < 26:
@@ -213,16 +215,24 @@ def run(ck):
         n = r() % 7
         content = [None if r() % 5 == 0 else VALS[r() % len(VALS)] for _ in range(n)]
         ops = [gen_op(r, n) for _ in range(4 + r() % 10)]
-        cases.append((content, ops))
+        # one case in four runs with an index property on Object.prototype (inherited by arrays and array-likes alike):
+        # a read of a hole or past the end must find it whatever the storage form
+        proto = ""
+        if r() % 4 == 0:
+            pi = r() % (n + 3)
+            proto = "Object.prototype[%d] = 'OP'; " % pi
+            for _ in range(3):
+                ops.insert(r() % (len(ops) + 1), "a[%d]" % pi)
+        cases.append((content, ops, proto))
     src = []
     recipe_names = None
-    for ci, (content, ops) in enumerate(cases):
+    for ci, (content, ops, proto) in enumerate(cases):
         recipes = build_recipes(content)
         recipe_names = list(recipes)
         for rn, build in recipes.items():
             src.append("//// c%d.%s" % (ci, rn))
             src.append(PRELUDE)
-            src.append("var a; " + build)
+            src.append(proto + "var a; " + build)
             src.append("print(__storage(a) + ' ' + dumpA(a));")
             for o in ops:
                 src.append("print(E(function(){ return %s; }) + ' => ' + dumpA(a));" % o)
@@ -230,7 +240,7 @@ def run(ck):
         # the array-like form: the same methods through Array.prototype.*.call on a plain object
         src.append("//// c%d.arraylike" % ci)
         src.append(PRELUDE)
-        src.append("var b; " + recipes["ascending"].replace("a = [];", "b = {length: 0};").replace("a[", "b[").replace("a.length", "b.length"))
+        src.append(proto + "var b; " + recipes["ascending"].replace("a = [];", "b = {length: 0};").replace("a[", "b[").replace("a.length", "b.length"))
         for o in ops:
             if o.startswith("a.") and not o.startswith(("a.length", "a.at", "a.concat", "a.flat")):
                 meth = o[2:o.index("(")]
@@ -249,7 +259,7 @@ def run(ck):
     forms_start, forms_end = {}, {}
     jbad = 0
     steps = 0
-    for ci, (content, ops) in enumerate(cases):
+    for ci, (content, ops, proto) in enumerate(cases):
         base = res.get("c%d.literal" % ci)
         if base is None:
             continue
